@@ -199,6 +199,9 @@ pub fn serde_check() -> (usize, Vec<String>) {
     c.rejects::<Vec<u32>>(Value::Nil); c.rejects::<BTreeSet<u8>>(Value::Nil); c.rejects::<(u32, u32)>(Value::Nil); c.rejects::<Pair>(Value::Nil);
     c.rejects::<BTreeMap<String, u8>>(Value::Nil); c.rejects::<Header>(Value::Nil); c.rejects::<String>(Value::Nil); c.rejects::<u8>(Value::Nil);
     c.rejects::<Vec<Vec<u32>>>(sexp!((#nil))); c.rejects::<E>(Value::Nil); c.rejects::<bool>(Value::Nil); c.rejects::<char>(Value::Nil);
+    c.rejects::<()>(Value::Bool(false)); c.rejects::<()>(Value::Bool(true)); c.rejects::<()>(Value::from(0)); c.rejects::<()>(Value::string(""));
+    c.rejects::<()>(Value::symbol("nil")); c.rejects::<Unit>(Value::Bool(false)); c.rejects::<Unit>(Value::from(0)); c.rejects::<()>(sexp!((())));
+    c.accepts(Value::Nil, ()); c.accepts(Value::Null, ()); c.accepts(Value::Null, Unit);
     c.rejects::<Vec<u32>>(Value::Bool(false)); c.rejects::<Vec<u32>>(Value::keyword("k")); c.rejects::<Vec<u32>>(Value::from('c'));
     c.rejects::<Vec<u32>>(Value::from(1)); c.rejects::<Vec<u32>>(Value::string("s")); c.rejects::<Vec<u32>>(Value::symbol("s"));
     c.rejects::<(u32, u32)>(sexp!((1))); c.rejects::<(u32, String)>(Value::vector(vec![Value::from(1)]));
